@@ -28,7 +28,7 @@ add('C05-newest-shard-compare-unscaled', 'mut05', 1, 'C05',
             'C07 quick': 'missed (correct: completeness is not affected)'},
     notes="Before this wave C05 had no scenario that bounded the FEC decoder's holdings; fec-fuzz and forge-sess were added (the first before the agent reported, the second after).")
 
-add('C05-reconstructed-size-lower-bound', 'mut05', 2, 'C05', dup_of=['mw2_05 mutant1 (C05 agent, round 2)'],
+add('C05-reconstructed-size-lower-bound', 'mut05', 2, 'C05',
     "UDPSession.kcpInput no longer checks sz >= 2 for a RECONSTRUCTED packet: a group whose reconstruction yields size field 0 or 1 panics in the read loop",
     change="sess.go kcpInput: if int(sz) <= len(r) && sz >= 2  ->  if int(sz) <= len(r)",
     needs="a multi-datagram forged group that is a valid Reed-Solomon codeword whose MISSING packet has size field 0/1 (a received packet is never cut by this field)",
@@ -85,7 +85,7 @@ add('C02-probe-tells-instead-of-asks', 'mut02', 2, 'C02',
     checks={'C02 quick': 'caught: 14 runs, C02/liveness/backlog-not-drained',
             'C03 quick': 'caught: 56 runs, C03/resume/transfer-does-not-resume'})
 
-add('C03-store-test-uses-advertised-window', 'mut03', 1, 'C03', dup_of=['mw2_02 mutant2 (C02 agent, round 2)'],
+add('C03-store-test-uses-advertised-window', 'mut03', 1, 'C03',
     "parse_data tests sn against rcv_nxt+wnd_unused() instead of rcv_nxt+rcv_wnd while Input acknowledges against rcv_wnd: with a stalled reader an overshoot segment is acknowledged but thrown away",
     change="kcp.go parse_data: kcp.rcv_nxt+kcp.rcv_wnd  ->  kcp.rcv_nxt+uint32(kcp.wnd_unused())",
     needs="a stalled or slow reader plus a sender that overshoots the currently advertised window (initial rmt_wnd 32 against a smaller rcv_wnd with nc=1, reordered ACKs, FEC-recovered una)",
@@ -98,7 +98,7 @@ add('C03-probe-only-with-empty-snd-buf', 'mut03', 2, 'C03',
     needs="overshoot (rcv_wnd below the assumed 32 with nc=1), the sender having written between rcv_wnd+1 and 2*rcv_wnd segments when the reader stalls so that the last one is acked selectively, and the WINS sent on resume lost",
     checks={'C03 quick': 'caught: 2 runs, C03/resume/transfer-does-not-resume (thin at the quick tier; thorough runs 40x as many)'})
 
-add('C10-parity-size-not-reset-on-skipped-group', 'mut10', 1, 'C10', dup_of=['mw2_10 mutant1 (C10 agent, round 2)'],
+add('C10-parity-size-not-reset-on-skipped-group', 'mut10', 1, 'C10',
     "fecEncoder.maxSize is reset only when parity was generated: after a skipped group a stale (larger) size cuts the parity of later groups, also after an accepted MTU reduction",
     change="fec.go encode: enc.maxSize = 0 moved into the branch that generated parity",
     needs="FEC on, a group that ends after an idle gap >= rto (parity skipped) and held a big packet, a later ACCEPTED SetMtu reduction, then a continuous group",
@@ -131,13 +131,13 @@ add('C12-receive-heap-plain-comparison', 'mut12', 1, 'C12',
     checks={'C12 quick': 'caught: 37 runs, C12/metamorphic/trace-differs (core-wrap: shifted run vs run from 0)',
             'C01 quick': 'missed (correct for its strata: C01 does not start near the wrap; C12 owns it)'})
 
-add('C13-write-timer-not-reenabled', 'mut13', 1, 'C13', dup_of=['mw2_13 mutant2 (C13 agent, round 2)'],
+add('C13-write-timer-not-reenabled', 'mut13', 1, 'C13',
     "WriteBuffers loses 'c = timeout.C' when re-arming its timer: after set -> clear -> set of the write deadline a blocked Write never times out",
     change="sess.go WriteBuffers: the line c = timeout.C after timeout.Reset removed",
     needs="a Write blocked on a full send window and the deadline sequence set -> zero -> set applied while that same call is blocked",
     checks={'C13 quick': 'caught: 21 runs, C13/missed-wakeup/write-pending-past-deadline'})
 
-add('C13-no-read-event-after-fec-recovery', 'mut13', 2, 'C13', dup_of=['mw2_13 mutant1 (C13 agent, round 2)', 'mw2_02 mutant1 (C02 agent, round 2)'],
+add('C13-no-read-event-after-fec-recovery', 'mut13', 2, 'C13',
     "the read-event notification runs before the FEC recovery loop instead of after it: data that becomes readable only through reconstruction wakes nobody",
     change="sess.go kcpInput (FEC case): the PeekSize()>0 -> notifyReadEvent() block moved before fecDecoder.decode",
     needs="FEC on, a data shard lost so that the awaited segment exists only by reconstruction, the triggering packet being parity or an out-of-order data shard, and nothing arriving afterwards",
@@ -285,3 +285,16 @@ add('C15-recheck-after-backlog-push-removed', 'mw2_15', 1, 'C15',
     change="sess.go Listener.packetInput: the select on l.die / closePendingSessions after l.chAccepts <- s removed",
     needs="Listener.Close() running after packetInput's early closed-test but before the backlog push of a new peer's session",
     checks={'C15 quick': 'caught: 294 runs, C15/leak/callback-after-close (stratum peers/listener-close)'})
+
+
+# further duplicate reports (the same change produced again by another agent)
+for _id, _d in {
+    'C13-write-timer-not-reenabled': ['mw2_13 mutant2 (C13 agent, round 2)'],
+    'C13-no-read-event-after-fec-recovery': ['mw2_13 mutant1 (C13 agent, round 2)', 'mw2_02 mutant1 (C02 agent, round 2)'],
+    'C03-store-test-uses-advertised-window': ['mw2_02 mutant2 (C02 agent, round 2)'],
+    'C05-reconstructed-size-lower-bound': ['mw2_05 mutant1 (C05 agent, round 2)'],
+    'C10-parity-size-not-reset-on-skipped-group': ['mw2_10 mutant1 (C10 agent, round 2)'],
+}.items():
+    for _e in E:
+        if _e['id'] == _id:
+            _e['duplicate_reports'] += _d
